@@ -49,9 +49,16 @@ theorem wrapVerbose_result (s : LogState) (v : Option Level) (o : Outcome) :
 theorem step_call_state (s : LogState) (v : Option Level) (o : Outcome) :
     (step s (.call v o)).1 = s := wrapVerbose_state s v o
 
+theorem wrapVerboseBad_state (s : LogState) (o : Outcome) : (wrapVerboseBad s o).1 = s := by
+  unfold wrapVerboseBad; split <;> rfl
+
+theorem step_callBad_state (s : LogState) (o : Outcome) : (step s (.callBad o)).1 = s :=
+  wrapVerboseBad_state s o
+
 theorem step_isCall_state (s : LogState) (op : Op) (h : op.isCall = true) : (step s op).1 = s := by
   cases op <;> simp [Op.isCall] at h
-  exact step_call_state s _ _
+  · exact step_call_state s _ _
+  · exact step_callBad_state s _
 
 /-- a non-call operation shows no call result -/
 theorem step_nonCall_obs (s : LogState) (op : Op) (h : op.isCall = false) : (step s op).2 = none := by
